@@ -19,4 +19,63 @@ func TestParseSmokeFile(t *testing.T) {
 		t.Log(dg)
 	}
 	t.Log(d.ModuleNames())
+	top := os.Getenv("VLOG_TOP")
+	if top == "" {
+		return
+	}
+	s, err := Elaborate(d, top, nil)
+	if err != nil {
+		t.Fatal(err)
+	}
+	t.Log(s.Signals())
+	s.CaptureDisplays = true
+	s.Set("reset_signal", 1)
+	s.Tick("clock_signal")
+	s.Set("reset_signal", 0)
+	for i := 0; i < 10; i++ {
+		if err := s.Tick("clock_signal"); err != nil {
+			t.Fatal(err)
+		}
+		t.Log(i, "pc", s.Get("p0_instance._pc"), "r0", s.Get("p0_instance._r0"), "o0", s.Get("o0"), "o0_valid", s.Get("o0_valid"), s.NBAWritten("p0_instance._r0"), s.Displays())
+	}
+}
+
+func TestSweepDir(t *testing.T) {
+	dir := os.Getenv("VLOG_SWEEP")
+	if dir == "" {
+		t.Skip()
+	}
+	ents, _ := os.ReadDir(dir)
+	for _, e := range ents {
+		if len(e.Name()) < 3 || e.Name()[len(e.Name())-2:] != ".v" {
+			continue
+		}
+		b, _ := os.ReadFile(dir + "/" + e.Name())
+		d, diags := ParseDesign(map[string]string{e.Name(): string(b)})
+		for _, dg := range diags {
+			t.Log("PARSE ", dg)
+		}
+		for _, dg := range Lint(d, LintOpts{}) {
+			t.Log("LINT ", dg)
+		}
+		if d.Module("a0") == nil {
+			continue
+		}
+		s, err := Elaborate(d, "a0", nil)
+		if err != nil {
+			t.Log("ELAB ", e.Name(), err)
+			continue
+		}
+		s.Set("reset_signal", 1)
+		if err := s.Tick("clock_signal"); err != nil {
+			t.Log("TICK ", e.Name(), err)
+		}
+		s.Set("reset_signal", 0)
+		for i := 0; i < 20; i++ {
+			if err := s.Tick("clock_signal"); err != nil {
+				t.Log("TICK ", e.Name(), err)
+				break
+			}
+		}
+	}
 }
